@@ -135,7 +135,7 @@ class RandomPolicy(BaseScheduler):
     """Arbitrary well-typed decisions (seeded): place now / in the future / on a pool
     that may not fit, leave unplaced, or cancel. Exercises every handler path."""
 
-    def __init__(self, rng, lookahead=0, retract=False, release_taskgraphs=False, cancel_prob=0.05, batch_prob=0.0, delays=None, _flags=None):
+    def __init__(self, rng, lookahead=0, retract=False, release_taskgraphs=False, cancel_prob=0.05, batch_prob=0.0, delays=None, runtimes=None, _flags=None):
         super().__init__(
             preemptive=False,
             runtime=et(0),
@@ -151,6 +151,7 @@ class RandomPolicy(BaseScheduler):
         self._batch_prob = batch_prob
         self._batches = {}
         self._delays = list(delays) if delays else [0, 0, 0, 1, 3]
+        self._runtimes = list(runtimes) if runtimes else [0]   # simulated time one invocation takes
 
     def schedule(self, sim_time, workload, worker_pools):
         tasks = workload.get_schedulable_tasks(
@@ -165,6 +166,7 @@ class RandomPolicy(BaseScheduler):
         )
         pools = list(worker_pools.worker_pools)
         out, seen = [], set()
+        took = self._rng.choice(self._runtimes) if self._runtimes != [0] else 0
         for t in tasks:
             if t.id in seen:
                 continue
@@ -194,13 +196,13 @@ class RandomPolicy(BaseScheduler):
                 out.append(
                     Placement.create_task_placement(
                         task=t,
-                        placement_time=sim_time + et(delay),
+                        placement_time=sim_time + et(took + delay),
                         worker_pool_id=pool.id,
                         worker_id=worker_id,
                         execution_strategy=strat,
                     )
                 )
-        return Placements(runtime=et(0), true_runtime=et(0), placements=out)
+        return Placements(runtime=et(took), true_runtime=et(0), placements=out)
 
 
 class Recording(BaseScheduler):
@@ -327,6 +329,7 @@ class Run:
                 cancel_prob=pol.get("cancel_prob", 0.05),
                 batch_prob=pol.get("batch_prob", 0.0),
                 delays=pol.get("delays"),
+                runtimes=pol.get("runtimes"),
                 _flags=self.flags,
             )
         elif pol["name"] in PLANNERS:
